@@ -195,19 +195,25 @@ class GroundedPrecondition:
         return is_applicable
 
     def _ground_universal_condition(
-        self, condition: UniversalPrecondition, extended_parameter_map: Dict[str, str]
-    ) -> Precondition:
+        self,
+        condition: UniversalPrecondition,
+        extended_parameter_map: Dict[str, str],
+        enclosing_action: Optional[Action] = None,
+    ) -> Tuple[Precondition, Action]:
         """Ground the universal precondition.
         
         :param condition: the universal precondition to ground.
         :param extended_parameter_map: the mapping between the lifted and the grounded objects with the quantified
             object as well.
-        :return: the grounded condition for a single object.
+        :param enclosing_action: the action whose signature is in scope where the quantifier occurs (the grounded
+            action extended with the variables of the enclosing quantifiers; defaults to the grounded action).
+        :return: the grounded condition for a single object and the action extended with the quantified variable.
         """
         grounded_preconditions = Precondition(condition.binary_operator)
+        scope_action = enclosing_action if enclosing_action is not None else self.action
         tmp_action = Action()
         tmp_action.signature = {
-            **self.action.signature,
+            **scope_action.signature,
             condition.quantified_parameter: condition.quantified_type,
         }
         grounded_preconditions.equality_preconditions = self._ground_equality_objects(
@@ -219,18 +225,23 @@ class GroundedPrecondition:
         self._ground(
             condition, grounded_preconditions, extended_parameter_map, tmp_action
         )
-        return grounded_preconditions
+        return grounded_preconditions, tmp_action
 
     def _validate_universal_precondition(
         self,
         condition: UniversalPrecondition,
         state: State,
         problem_objects: Optional[Dict[str, PDDLObject]] = None,
+        parameters_map: Optional[Dict[str, str]] = None,
+        action: Optional[Action] = None,
     ) -> bool:
         """Validate if the given universal precondition is applicable in the given state.
 
         :param condition: the universal precondition to validate.
         :param state: the state to validate the precondition in.
+        :param parameters_map: the parameter map in scope where the quantifier occurs (inside another quantifier it
+            contains the enclosing quantified variables); defaults to the map the action was grounded with.
+        :param action: the action whose signature is in scope where the quantifier occurs.
         :return: whether the universal precondition is applicable in the given state.
         """
         if not problem_objects:
@@ -245,14 +256,22 @@ class GroundedPrecondition:
                 continue
 
             extended_parameter_map = {
-                **self._parameter_map,
+                **(
+                    parameters_map
+                    if parameters_map is not None
+                    else self._parameter_map
+                ),
                 condition.quantified_parameter: obj_name,
             }
-            grounded_precondition = self._ground_universal_condition(
-                condition, extended_parameter_map
+            grounded_precondition, extended_action = self._ground_universal_condition(
+                condition, extended_parameter_map, action
             )
             is_applicable = is_applicable and self._is_condition_applicable(
-                grounded_precondition, state, problem_objects
+                grounded_precondition,
+                state,
+                problem_objects,
+                extended_parameter_map,
+                extended_action,
             )
 
         return is_applicable
@@ -262,12 +281,16 @@ class GroundedPrecondition:
         preconditions: Precondition,
         state: State,
         problem_objects: Optional[Dict[str, PDDLObject]] = None,
+        parameters_map: Optional[Dict[str, str]] = None,
+        action: Optional[Action] = None,
     ) -> bool:
         """Validate if the given condition is applicable in the given state.
 
         :param preconditions: the condition to validate.
         :param state: the state to validate the condition in.
         :param problem_objects: the objects of the problem to use for universal preconditions.
+        :param parameters_map: the parameter map in scope (set while a quantified condition is being validated).
+        :param action: the action whose signature is in scope (set while a quantified condition is being validated).
         :return: whether the condition is applicable in the given state.
         """
         is_applicable = self._validate_equality_holds(preconditions)
@@ -292,14 +315,16 @@ class GroundedPrecondition:
                 is_applicable = BinaryOperator[preconditions.binary_operator](
                     is_applicable,
                     self._validate_universal_precondition(
-                        condition, state, problem_objects
+                        condition, state, problem_objects, parameters_map, action
                     ),
                 )
 
             elif isinstance(condition, Precondition):
                 is_applicable = BinaryOperator[preconditions.binary_operator](
                     is_applicable,
-                    self._is_condition_applicable(condition, state, problem_objects),
+                    self._is_condition_applicable(
+                        condition, state, problem_objects, parameters_map, action
+                    ),
                 )
 
             else:
